@@ -160,10 +160,10 @@ Definition reach (cfg : config) (h : list op) : world := fst (run_history cfg wo
 
 (* ------------------------------------------------------------------ interleavings *)
 
-(* one command of a thread *)
-Definition step_thread (p : prog opres) (w : world) : world * prog opres :=
+(* one turn of a thread: its memory assignments up to and including its next storage/Lightning call *)
+Fixpoint step_thread (p : prog opres) (w : world) : world * prog opres :=
   match p with
-  | Do c k => let '(w', r) := exec c false w in (w', k r)
+  | Do c k => let '(w', r) := exec c false w in if is_call c then (w', k r) else step_thread (k r) w'
   | _ => (w, p)
   end.
 
